@@ -11,6 +11,9 @@ from vlib import model as M, compare as C, contracts, util
 
 ID = 'C01'
 LEVEL = 'exploration'
+LEVEL_TEXT = "Exploration with an executable oracle: thousands of generated well-formed files (all 17 types x layouts x chunkings, forced coverage matrix) are read by the real TdmsFile.read and compared bit-exactly with the logical model they were encoded from, with receiver/chunk-accounting contracts active. Universal claim over file shapes cannot be enumerated, so this is 'held on K distinct shapes', not proof."
+LEVEL_NOTE = 'Trusted: vlib/model.py encoder as the reading of the TDMS layout; NumPy; icontract. Says nothing about shapes the generator cannot produce (e.g. DAQmx is in C11).'
+TECHNIQUE = 'reference-model monitor at the API boundary + icontract contracts on receivers and chunk accounting'
 RULE = ('random + directed logical TDMS files from vlib.model (1-6 segments, 1-5 channels, 17 types, contiguous/'
         'interleaved, 0-4 chunks, metadata inheritance, padding, both byte orders), encoded by an independent '
         'encoder and read with TdmsFile.read; non-trivial = at least one channel with >=1 value; distinct = '
